@@ -65,6 +65,17 @@ func ruleCursorUp(w *World, r *Report, pfx string) {
 			if iWrite >= 0 && iStore < 0 {
 				bad = "the line count of the frame is not remembered for the next Flush"
 			}
+			if iWrite < 0 {
+				// the only way out without writing the frame is the failure of the clearing step
+				errT := types.Universe.Lookup("error").Type()
+				isErrV := func(v Val) bool {
+					_, isConst := v.V.(*ssa.Const)
+					return !isConst && types.Identical(v.V.Type(), errT)
+				}
+				if !p.hasCmp(-1, token.NEQ, isErrV, isNilVal) {
+					bad = "a path of Flush returns without writing the frame out and without carrying a clearing error (" + pathExitPos(w, p) + ")"
+				}
+			}
 		})
 		r.Check(bad == "" && n > 0 && sawClear, rule, "cwriter.Writer.Flush (windows sibling)", w.pos(fn.Pos()), "clear previous lines (guarded), remember count, write", orStr(bad, "no clearing path"))
 		return
@@ -443,6 +454,8 @@ func checkC04(w *World, r *Report) {
 	ruleRenderSize(w, r, "C04")
 	ruleTermSize(w, r, "C04")
 	ruleWriterNew(w, r, "C04")
+	ruleIsTerminal(w, r, "C04")
+	ruleWindowsClear(w, r, "C04")
 	ruleRowsAreLines(w, r, "C04")
 	ruleFormatExchange(w, r, "C04")
 	ruleDecorWidthAccounting(w, r, "C04")
